@@ -143,31 +143,39 @@ def run(R, tier, configs=("dflt",)):
         emap = C.error_map("dflt", "scpi", b)
         bad_ = {vn: sorted(oc) for vn, oc in emap.items() if oc != C.expected_error(vn)}
         R.check(not bad_, "R08.2", "%s:error-map" % fty, "parser Overflow/Underflow -> -222, InvalidDigit -> -121, otherwise -120", "numeric error mapping of the %s conversion is wrong for %s" % (fty, dict(list(bad_.items())[:4])), where=b.span)
-        # ---- R08.3 keyword table
-        oc, res = C.outcome_set(eng, b, "CharacterProgramData")
-        seen = {}
-        dflt_ok = False
-        for lit, order, r, ok in keyword_paths(res):
-            if not ok:
-                continue
-            if lit is None:
-                if M.outcome(r) == "Err(DataTypeError)":
-                    dflt_ok = True
-                else:
-                    seen["<none>"] = M.outcome(r)
-                continue
-            v = ok_value(r)
-            bits = v.fields.get(0).v if isinstance(v, AggV) and v.kind == "float" and isinstance(v.fields.get(0), K) else None
-            seen[lit.decode()] = bits
-        for kw, bits in F_CONST[fty].items():
-            R.check(seen.get(kw) == bits, "R08.3", "%s:%s" % (fty, kw), "-> bits 0x%x" % bits, "keyword %s converts to %s (bits %s), expected bits 0x%x" % (kw, fty, hex(seen[kw]) if isinstance(seen.get(kw), int) else seen.get(kw), bits), where=b.span)
-        nb = seen.get("NAN")
+        # ---- R08.3 keyword table: the conversion folded on character data around every keyword ---------------------
+        from .c03 import ref_form_match
+        feng = C.fold_engine("dflt", "scpi")
         ebits = 8 if fty == "f32" else 11
         mant = width - 1 - ebits
-        is_nan = isinstance(nb, int) and ((nb >> mant) & ((1 << ebits) - 1)) == (1 << ebits) - 1 and (nb & ((1 << mant) - 1)) != 0
-        R.check(is_nan, "R08.3", "%s:NAN" % fty, "-> NaN", "keyword NAN converts to bits %s which is not a NaN" % (hex(nb) if isinstance(nb, int) else nb), where=b.span)
-        extra = set(seen) - set(F_CONST[fty]) - {"NAN"}
-        R.check(dflt_ok and not extra, "R08.3", "%s:other-character-data" % fty, "any other character data -> -104", "character data other than the five keywords must be a data type error (extra keywords %s)" % sorted(extra), where=b.span)
+        table = dict(F_CONST[fty])
+        table["NAN"] = "nan"
+        bad = {k: [] for k in list(table) + ["<other>"]}
+        n_kw = 0
+        for text in C.keyword_probes([k.encode() for k in table]):
+            hits = [k for k in table if ref_form_match(k.encode(), text)]
+            res = C.fold_character(feng, b, text)
+            n_kw += 1
+            if res is None or len(res) != 1 or res[0].outcome != "return":
+                bad[hits[0] if hits else "<other>"].append("%r: undecided (%s)" % (text, None if res is None else [(r.outcome, r.retval) for r in res][:2]))
+                continue
+            r = res[0]
+            v = ok_value(r)
+            bits = v.fields.get(0).v if isinstance(v, AggV) and v.kind == "float" and isinstance(v.fields.get(0), K) else None
+            if hits:
+                exp = table[hits[0]]
+                if exp == "nan":
+                    ok = isinstance(bits, int) and ((bits >> mant) & ((1 << ebits) - 1)) == (1 << ebits) - 1 and (bits & ((1 << mant) - 1)) != 0
+                else:
+                    ok = bits == exp
+                if not ok:
+                    bad[hits[0]].append("%r -> %s" % (text, hex(bits) if isinstance(bits, int) else M.outcome(r)))
+            elif M.outcome(r) != "Err(DataTypeError)":
+                bad["<other>"].append("%r -> %s%s" % (text, M.outcome(r), "" if bits is None else " (bits %s)" % hex(bits)))
+        for kw, exp in table.items():
+            R.check(not bad[kw], "R08.3", "%s:%s" % (fty, kw), "short and long form in any letter case -> %s" % ("NaN" if exp == "nan" else "bits 0x%x" % exp), "keyword %s of %s: %s" % (kw, fty, "; ".join(bad[kw][:4])), where=b.span)
+        R.check(not bad["<other>"], "R08.3", "%s:other-character-data" % fty, "any other character data (near misses, numeric suffix, partial long form) -> -104", "character data that is not one of the five keywords is accepted: %s" % "; ".join(bad["<other>"][:5]), where=b.span)
+        R.count("keyword_evaluations_%s" % fty, n_kw)
 
     # ---- R08.4 boolean ---------------------------------------------------------------------------------------------
     bs = [b for ty, b in C.conversions(u) if ty == "bool"]
